@@ -297,6 +297,7 @@ class Machine(object):
         self.max_unroll = max_unroll
         self.max_depth = max_depth
         self.nobj = 0
+        self.lits = {}
 
     # ---- frames ----------------------------------------------------------
     class Frame(object):
@@ -370,9 +371,11 @@ class Machine(object):
             return self.fields[key]
         arr = fr.arrays.get(lv[1])
         if arr is None:
+            arr = self.lits.get(lv[1])
+        if arr is None:
             raise Unsupported("unknown array")
         if not (0 <= lv[2] < len(arr)):
-            raise Hazard("access outside %s[%d] (index %d) at %s" % (lv[1], len(arr), lv[2], where))
+            raise Hazard("access outside %s[%d] (index %d) at %s" % (str(lv[1])[:12], len(arr), lv[2], where))
         if arr[lv[2]] is None:
             raise Hazard("read of %s[%d], which was never written, at %s" % (lv[1], lv[2], where))
         return arr[lv[2]]
@@ -405,6 +408,8 @@ class Machine(object):
                 b = fn.s(fn.strip(ch[0], casts=True))
                 if b["k"] == "DeclRefExpr" and b["ref"]["d"] in fr.arrays:
                     return Ptr(b["ref"]["d"], 0)
+                if b["k"] == "StringLiteral":
+                    return self.ev(fr, ch[0])
                 raise Unsupported("decay of an untracked array")
             if ck in ("LValueToRValue",):
                 inner = fn.s(fn.strip(ch[0], casts=False))
@@ -428,6 +433,16 @@ class Machine(object):
             raise Unsupported("cast " + str(ck))
         if "cv" in st and k not in ("DeclRefExpr",):
             return Aff.const(int(st["cv"]))
+        if k == "StringLiteral":
+            name = "lit@%s:%d" % (fn.key[-40:], i)
+            if name not in self.lits:
+                def s8(v):
+                    return v - 256 if v > 127 else v
+                bs = list(st.get("bytes", []))
+                if not bs or bs[-1] != 0:
+                    bs.append(0)        # the terminator of the literal
+                self.lits[name] = [Aff.const(s8(b_)) for b_ in bs]
+            return Ptr(name, 0)
         if k in ("IntegerLiteral", "CharacterLiteral"):
             return Aff.const(int(st["v"]))
         if k == "CXXBoolLiteralExpr":
@@ -466,6 +481,12 @@ class Machine(object):
             if op == "*":
                 return self.load(fr, self.lvalue(fr, i), fn.loc(i))
             if op == "&":
+                inner = ch[0]
+                while fn.s(inner)["k"] == "ParenExpr":
+                    inner = fn.s(inner)["c"][0]
+                if fn.s(inner)["k"] == "ArraySubscriptExpr":
+                    lv = self.lvalue(fr, inner)
+                    return Ptr(lv[1], lv[2])
                 raise Unsupported("address-of")
             v = self.ev(fr, ch[0])
             if op == "!":
